@@ -1,10 +1,175 @@
-(* C04 - Concurrent vector: stable addresses, one element per index, built/destroyed once, cooling period. *)
+(* C04 - Concurrent vector: stable addresses, one element per index, built/destroyed once, cooling period.
+   Only statements; proofs are `exact <lemma of CV/CVProofs.v>`.  `Reach b t0 progs s` = "s is reachable from the
+   initial state (block size 2^b, clock t0 seconds) of client programs `progs` under SOME schedule": every theorem is
+   quantified over all schedules, all programs of ensure/reserve/[]/size/snapshot/snapshot[]/for_each/gc/time-passes,
+   all thread counts, all block sizes and all (monotone) clock histories, 16-bit stamp wrap included.
+
+   Proved at full strength: stable addresses (c04_stable, c04_tables_only_grow), one element per index through any
+   published table now or later (c04_same_element + c04_reads_go_through_published_tables) and at the level of the
+   values returned to the callers (c04_results_same_element), the current table is never
+   freed (c04_current_table_alive), every block constructed exactly once (c04_constructed_once), the stamp arithmetic
+   (packing, expire incl. wrap), the slow-path ranges and the memory orders.
+   PARTIAL / REFUTED: the cooling period.  c04_cooling_partial and c04_snapshot_usable_partial hold under the proviso
+   `stale s = false` (no retire CAS succeeded against a head value re-read in a later 64 s unit than its own clock
+   read).  Without the proviso the statement is false of the model AND of /repo: c04_cooling_refuted (table freed 0 s
+   after being superseded, snapshot taken in that second already unusable; needs a 128 s stall of one retire),
+   c04_cooling_refuted_short_stall (2 s stall across a unit boundary => 63 s < 64 s).  Replayed on the real code by
+   checks/c04.py (directed schedules), signature cooling-stale-stamp.
+   NOT proved here (checked by the monitors on the implementation and, per explored program, by the model explorer's
+   end-of-life check): "every block is destroyed exactly once" (loser path + destructor) and "every table is freed
+   exactly once at death" need the block-ownership invariant over the ghost `bst`, which is stated in the model but
+   not carried through the proofs. *)
 From Coq Require Import ZArith List Bool.
 Require Import Verif.Gen.Gen_cvector Verif.Conc.Machine Verif.CV.CVModel Verif.CV.CVProofs.
 Import ListNotations.
 Local Open Scope Z_scope.
 
+(* stable addresses: once index i designates element e = (block, offset) it does so in every later state, however many
+   threads grow the vector in between *)
+Theorem c04_stable : forall b t0 progs s sch i e, Reach b t0 progs s ->
+  slot s i = Some e -> slot (run st step s sch) i = Some e.
+Proof. exact cv_stable. Qed.
+Print Assumptions c04_stable.
+
+Theorem c04_tables_only_grow : forall b t0 progs s sch, Reach b t0 progs s ->
+  prefix (live s) (live (run st step s sch)).
+Proof. exact cv_tables_only_grow. Qed.
+Print Assumptions c04_tables_only_grow.
+
+(* one element per index: read through ANY published table (current, just installed by a slow path, held by a
+   snapshot, retired), now or at any later time, index i yields the same element *)
+Theorem c04_same_element : forall b t0 progs s sch k1 k2 ti1 ti2 i e1 e2, Reach b t0 progs s ->
+  nth_error (tables s) k1 = Some ti1 -> published ti1 ->
+  nth_error (tables (run st step s sch)) k2 = Some ti2 -> published ti2 ->
+  read_elem s (tblocks ti1) i = Some e1 -> read_elem (run st step s sch) (tblocks ti2) i = Some e2 -> e1 = e2.
+Proof. exact cv_same_element. Qed.
+Print Assumptions c04_same_element.
+
+(* at the level of what callers get: every element returned by ensure(i) / operator[](i) / snapshot[i], by any thread
+   at any time, is the element the current table designates for i (and, by c04_stable, will designate for ever):
+   two requests for the same index always got the same element *)
+Theorem c04_results_same_element : forall b t0 progs s t1 t2 th1 th2 j1 j2 o1 o2 i e1 e2, Reach b t0 progs s ->
+  nth_error (threads s) t1 = Some th1 -> nth_error (threads s) t2 = Some th2 ->
+  nth_error (prog th1) j1 = Some o1 -> nth_error (prog th2) j2 = Some o2 ->
+  op_index o1 = Some i -> op_index o2 = Some i ->
+  nth_error (results th1) j1 = Some (RElem (Some e1)) -> nth_error (results th2) j2 = Some (RElem (Some e2)) ->
+  e1 = e2 /\ slot s i = Some e1.
+Proof. exact cv_results_same_element. Qed.
+Print Assumptions c04_results_same_element.
+
+(* ... and the tables that ensure / operator[] / snapshots read through are published ones *)
+Theorem c04_reads_go_through_published_tables : forall b t0 progs s t th, Reach b t0 progs s ->
+  nth_error (threads s) t = Some th ->
+  (exists ti, nth_error (tables s) (cur s) = Some ti /\ published ti) /\
+  (forall k taken, snap th = Some (k, taken) -> exists ti, nth_error (tables s) k = Some ti /\ published ti) /\
+  (forall old nt hw hn w c0 hclk, tpc th = RetStrong old nt hw hn w c0 hclk \/ tpc th = RetWeak old nt hw hn w c0 hclk ->
+     exists ti, nth_error (tables s) nt = Some ti /\ published ti).
+Proof. exact cv_reads_published. Qed.
+Print Assumptions c04_reads_go_through_published_tables.
+
+(* the table installed in _block_table is never freed *)
+Theorem c04_current_table_alive : forall b t0 progs s, Reach b t0 progs s ->
+  exists ti, nth_error (tables s) (cur s) = Some ti /\ tfreed ti = None /\ tsup ti = None.
+Proof. exact cv_current_alive. Qed.
+Print Assumptions c04_current_table_alive.
+
+(* every element (block) is constructed exactly once *)
+Theorem c04_constructed_once : forall b t0 progs s, Reach b t0 progs s -> Forall (fun c => c = 1%nat) (bctor s).
+Proof. exact cv_constructed_once. Qed.
+Print Assumptions c04_constructed_once.
+
+(* cooling period (PARTIAL: proviso `stale s = false`): a table is freed more than 64 s after the growth that
+   superseded it, for every clock history, gc() calls included, 16-bit wrap included *)
+Theorem c04_cooling_partial : forall b t0 progs s, 0 <= t0 -> Reach b t0 progs s -> stale s = false ->
+  forall k ti r f, nth_error (tables s) k = Some ti -> tsup ti = Some r -> tfreed ti = Some f -> f - r > 64.
+Proof. exact cv_cooling_partial. Qed.
+Print Assumptions c04_cooling_partial.
+
+(* (PARTIAL, same proviso) a snapshot is found unusable only more than 64 s after it was taken *)
+Theorem c04_snapshot_usable_partial : forall b t0 progs s, 0 <= t0 -> Reach b t0 progs s -> stale s = false ->
+  forall k taken c, In (k, taken, c) (uaf s) -> c - taken > 64.
+Proof. exact cv_snapshot_partial. Qed.
+Print Assumptions c04_snapshot_usable_partial.
+
+(* REFUTED without the proviso (finding F4, replayed on /repo) *)
+Theorem c04_cooling_refuted :
+  exists s, Reach 0 1000000 f4_progs s /\ all_done s = true /\
+    (exists k ti r f, nth_error (tables s) k = Some ti /\ tsup ti = Some r /\ tfreed ti = Some f /\ f - r = 0) /\
+    (exists k taken c, In (k, taken, c) (uaf s) /\ c - taken = 0) /\ stale s = true.
+Proof. exact cv_cooling_refuted. Qed.
+Print Assumptions c04_cooling_refuted.
+
+Theorem c04_cooling_refuted_short_stall :
+  exists s, Reach 0 1000000 f4b_progs s /\ all_done s = true /\
+    (exists k ti r f, nth_error (tables s) k = Some ti /\ tsup ti = Some r /\ tfreed ti = Some f /\ f - r = 63).
+Proof. exact cv_cooling_refuted_short_stall. Qed.
+Print Assumptions c04_cooling_refuted_short_stall.
+
+Theorem c04_times_are_past : forall b t0 progs s, 0 <= t0 -> Reach b t0 progs s ->
+  forall k ti, nth_error (tables s) k = Some ti ->
+    (forall r, tsup ti = Some r -> r <= clock s) /\ (forall f, tfreed ti = Some f -> f <= clock s).
+Proof. exact cv_times_sane. Qed.
+Print Assumptions c04_times_are_past.
+
+(* the regenerated stamp arithmetic: 48-bit pointer tagging round-trips; `expire` (mod 2^16) implies two whole units
+   have passed, wrap can only delay an expiry; two units apart means more than 64 s *)
+Theorem c04_head_packing : forall p ts, 0 <= p < 2 ^ 48 -> 0 <= ts ->
+  ts_of_head (make_head p ts) = ts /\ node_of_head (make_head p ts) = p.
+Proof. exact cv_head_packing. Qed.
+Print Assumptions c04_head_packing.
+
+Theorem c04_expire_sound : forall hw c U, 0 <= U <= current_unit c -> ts_of_head hw = U mod 2 ^ 16 ->
+  expire hw (stamp_at c) = true -> U + 2 <= current_unit c.
+Proof. exact cv_expire_sound. Qed.
+Print Assumptions c04_expire_sound.
+
+Theorem c04_ts16_wrap_only_delays : forall hw c U, 0 <= U <= current_unit c -> ts_of_head hw = U mod 2 ^ 16 ->
+  current_unit c - U < 2 ^ 16 -> (expire hw (stamp_at c) = true <-> U + 2 <= current_unit c).
+Proof. exact cv_expire_wrap_only_delays. Qed.
+Print Assumptions c04_ts16_wrap_only_delays.
+
+Theorem c04_two_units_is_more_than_64s : forall r c U, current_unit r <= U -> U + 2 <= current_unit c -> c - r > 64.
+Proof. exact units_apart. Qed.
+Print Assumptions c04_two_units_is_more_than_64s.
+
+Theorem c04_stamp_types : ts_bits = 16 /\ ts_of_head_bits = 16 /\ expire_arg_bits = 16.
+Proof. exact cv_ts_bits. Qed.
+
+(* the regenerated slow path: copy exactly the old entries, create and (on loss) delete exactly [block_num, expect) *)
 Theorem c04_slow_path_ranges : forall bn e, copy_bytes bn / 8 = bn /\ create_lo bn e = bn /\ create_hi bn e = e /\
   delete_lo bn e = bn /\ delete_hi bn e = e /\ new_table_size bn e = e.
 Proof. exact cv_gen_ranges. Qed.
 Print Assumptions c04_slow_path_ranges.
+
+Theorem c04_qualified_tests : forall n e, (table_qualified n e = true <-> e <= n) /\ (loser_done n e = true <-> e <= n).
+Proof. intros n e. split; [exact (cv_table_qualified n e)|exact (cv_loser_done n e)]. Qed.
+Print Assumptions c04_qualified_tests.
+
+Theorem c04_element_loops : forall n, ctor_loop_hi n = n /\ dtor_loop_hi n = n /\ destroy_loop_hi n = n.
+Proof. intro n. destruct (cv_elem_loops n). repeat split; auto. Qed.
+
+(* index arithmetic: static and dynamic block sizes agree; an index splits uniquely into (block, offset) *)
+Theorem c04_static_dynamic_agree : forall i b, 0 <= b ->
+  sta_block_index i b = dyn_block_index i b /\
+  sta_block_offset i (2 ^ b) = dyn_block_offset i (mask_of b) /\ sta_block_mask (2 ^ b) = mask_of b /\
+  dyn_block_size (mask_of b) = 2 ^ b.
+Proof. exact cv_static_dynamic_agree. Qed.
+Print Assumptions c04_static_dynamic_agree.
+
+Theorem c04_index_split : forall i b, 0 <= b -> 0 <= i ->
+  i = dyn_block_index i b * 2 ^ b + dyn_block_offset i (mask_of b) /\ 0 <= dyn_block_offset i (mask_of b) < 2 ^ b.
+Proof. exact cv_index_split. Qed.
+Print Assumptions c04_index_split.
+
+(* the memory orders the argument relies on are the ones in the source (regenerated site tables) *)
+Theorem c04_memory_order_obligations : orders_ok = true.
+Proof. exact cv_orders_ok. Qed.
+Print Assumptions c04_memory_order_obligations.
+
+(* non-vacuity: a reachable state in which a table was retired, freed 128 s later by gc() (no stale stamp) and a
+   too-old snapshot found it freed *)
+Example c04_cooling_example :
+  exists s, Reach 0 1000000 ok_progs s /\ stale s = false /\
+    (exists k ti r f, nth_error (tables s) k = Some ti /\ tsup ti = Some r /\ tfreed ti = Some f /\ f - r = 128) /\
+    uaf s <> [].
+Proof. exact cv_cooling_example. Qed.
